@@ -37,9 +37,9 @@ def replay_stage(ctx, name, cmd, cases, extra_args=(), timeout=3600, distinct_ke
     return summary
 
 
-def record_stage(ctx, name, cmd, args, timeout=3600):
+def record_stage(ctx, name, cmd, args, timeout=3600, env=None):
     tpath = ctx.path(name + ".ndjson")
-    p = run_jbv([cmd] + list(args) + [tpath], timeout=timeout)
+    p = run_jbv([cmd] + list(args) + [tpath], timeout=timeout, env=env)
     if p.returncode != 0:
         log(p.stderr[-3000:])
         raise ToolError("recorder %s failed (rc=%s)" % (cmd, p.returncode))
@@ -116,6 +116,11 @@ def check_C02(ctx):
     # I->S: random histories on the bundled voice (Engine::generator vs Engine::synthesize)
     tp = record_stage(ctx, "bundled", "c02-record", [ctx.seed, 40 if q else 600, 6 if q else 30])
     trace_stage(ctx, "generator", S("trace", "Trace_Generator.cfg"), S("trace", "Trace_Generator.tla"), tp)
+    # the same on a copy of the bundled voice whose PDF means are perturbed state by state (the bundled low-pass stream is
+    # one constant filter: a frame offset lost in that trajectory alone would be invisible on it)
+    tp2 = record_stage(ctx, "perturbed", "c02-record", [ctx.seed + 1, 25 if q else 300, 6 if q else 30],
+                       env={"JBV_VOICE": perturbed_voices(ctx, 1, "all")[1]})
+    trace_stage(ctx, "generator-perturbed", S("trace", "Trace_Generator.cfg"), S("trace", "Trace_Generator.tla"), tp2)
     ctx.assumptions += [
         "direct generators are built with SpeechGenerator::new / Vocoder::new inside their documented preconditions",
         "bit-equality is checked on 64-bit FNV digests per frame in the trace direction and on raw bits in the replay direction",
@@ -184,6 +189,10 @@ def check_C04(ctx):
             for row in st["model"]["sel"]:
                 sel.update((st["name"], tuple(x)) for x in row)
     replay_stage(ctx, "rendered-voices", "c04-replay", cases, extra_args=[label_table_json(ctx)],
+                 distinct_key=lambda c: json.dumps(c["fam"], sort_keys=True))
+    # question semantics: every pool question (real and synthetic pattern-list kinds) alone and beside a second one
+    qcases = gen(ctx, "Question", S("gen", "Gen_Question.cfg" if q else "Gen_Question_thorough.cfg"), S("gen", "Gen_Question.tla"), workers=4 if q else 12)
+    replay_stage(ctx, "questions", "c04-replay", qcases, extra_args=[label_table_json(ctx)],
                  distinct_key=lambda c: json.dumps(c["fam"], sort_keys=True))
     ctx.stage("selection coverage", distinct_tree_pdf_pairs=len(sel))
     if len(sel) < 4:
@@ -646,7 +655,7 @@ def check_C11(ctx):
     ctx.stage("mask coverage", runs=len(runs), partly_voiced=mixed)
     if mixed == 0:
         raise ToolError("vacuous threshold sweep")
-    evs = laws_stage(ctx, "voicing", 12 if q else 300, perturbed_voices(ctx, 2, "msd"), keyfn=lambda e, run: "voicing:%s" % e.get("ev"))
+    evs = laws_stage(ctx, "voicing", 30 if q else 400, perturbed_voices(ctx, 2, "msd"), keyfn=lambda e, run: "voicing:%s" % e.get("ev"))
     ctx.assumptions += ["thresholds in the trace direction are f32-representable (k/1024, a state's voicing weight, or one f32 ulp around it) so that "
                         "'exceeds' is decided exactly on bit patterns in TLA+; rendered voices use voicing weights 1/8..7/8 and thresholds 0..8 eighths"]
     return ("model_checking",
